@@ -208,6 +208,25 @@ class Interp:
                 return b
         raise Unsupported("operator %s on %s and %s" % (op.__name__, type(a).__name__, type(b).__name__))
 
+    def e_ListComp(self, e):
+        if len(e.generators) != 1 or e.generators[0].is_async:
+            raise Unsupported("comprehension with several generators")
+        g = e.generators[0]
+        it = self.ev(g.iter)
+        if not isinstance(it, (list, tuple)):
+            raise Unsupported("comprehension over %s" % type(it).__name__)
+        out = []
+        saved = dict(self.env)
+        for v in list(it):
+            self.assign(g.target, v)
+            if all(self.truth(self.ev(c)) for c in g.ifs):
+                out.append(self.ev(e.elt))
+        for k in [k for k in self.env if k not in saved]:
+            del self.env[k]
+        return out
+
+    e_GeneratorExp = e_ListComp
+
     def e_Subscript(self, e):
         v = self.ev(e.value)
         if isinstance(e.slice, ast.Slice):
@@ -252,6 +271,8 @@ class Interp:
                 return list(range(*args))
             if name in ("zip",):
                 return list(zip(*args))
+            if name in ("list", "tuple") and len(args) == 1 and isinstance(args[0], (list, tuple)):
+                return list(args[0]) if name == "list" else tuple(args[0])
             if name == "enumerate" and len(args) == 1:
                 return list(enumerate(args[0]))
             if name == "divmod" and len(args) == 2 and all(isinstance(a, int) for a in args) and args[1] != 0:
